@@ -142,12 +142,23 @@ class Serializable(object):  # pylint: disable=too-few-public-methods
             ])
         elif hasattr(obj, '__dict__'):
             result = Serializable._json_traverse(obj.__dict__, result_func)
-        elif isinstance(obj, (list, tuple, frozenset, set)):
+        elif isinstance(obj, (frozenset, set)):
+            result = [Serializable._json_traverse(item, result_func) for item in Serializable._sorted_set(obj)]
+        elif isinstance(obj, (list, tuple)):
             result = [Serializable._json_traverse(item, result_func) for item in obj]
         else:
             result = result_func(obj)
 
         return result
+
+    @staticmethod
+    def _sorted_set(obj):
+        def sort_key(item):
+            if isinstance(item, enum.Enum):
+                return (0, type(item).__name__, item.name)
+            return (1, type(item).__name__, str(item))
+
+        return sorted(obj, key=sort_key)
 
     @staticmethod
     def _markdown_indent_from_level(level):
@@ -207,6 +218,8 @@ class Serializable(object):  # pylint: disable=too-few-public-methods
             return False, '-'
 
         indent = Serializable._markdown_indent_from_level(level)
+        if isinstance(obj, (frozenset, set)):
+            obj = Serializable._sorted_set(obj)
 
         result = ''
         for index, item in enumerate(obj):
